@@ -279,19 +279,27 @@ Fixpoint bools_eqb (a b : list bool) : bool :=
    per cluster name None (absent) or (lb type, addresses) *)
 Definition router_obs := (string * list (request * option string * list string))%type.
 Definition cluster_obs := (string * option (nat * list string))%type.
-Definition up_case := (list op * list bool * list router_obs * list cluster_obs)%type.
+(* operations, per-operation results, live observations, and the same observations on objects rebuilt from the dump *)
+Definition up_case := (list op * list bool * list router_obs * list cluster_obs * list router_obs * list cluster_obs)%type.
 
-Definition router_obs_ok (s : state) (o : router_obs) : bool :=
-  let (name, ls) := o in
-  let live := match mget name (st_routers s) with Some w => rw_live w | None => None end in
+Definition router_obs_ok_with (live : option live_router) (ls : list (request * option string * list string)) : bool :=
   forallb (fun x => match x with
                     | (rq, one, all) => andb (opt_str_eqb (option_map r_cluster (lookup live rq)) one)
                                              (strs_eqb (map r_cluster (lookup_all live rq)) all)
                     end) ls.
 
-Definition cluster_obs_ok (s : state) (o : cluster_obs) : bool :=
+Definition router_obs_ok (s : state) (o : router_obs) : bool :=
+  let (name, ls) := o in
+  router_obs_ok_with (match mget name (st_routers s) with Some w => rw_live w | None => None end) ls.
+
+(* a router rebuilt from the stored configuration *)
+Definition router_dump_ok (s : state) (o : router_obs) : bool :=
+  let (name, ls) := o in
+  router_obs_ok_with (match mget name (st_routers s) with Some w => fresh_router (rw_stored w) | None => None end) ls.
+
+Definition cluster_obs_ok_in (m : list (string * cluster)) (o : cluster_obs) : bool :=
   let (name, got) := o in
-  match mget name (st_clusters s), got with
+  match mget name m, got with
   | None, None => true
   | Some c, Some (lb, hosts) => andb (Nat.eqb (cl_lb c) lb) (same_hosts (cl_hosts c) hosts)
   | _, _ => false
@@ -299,9 +307,13 @@ Definition cluster_obs_ok (s : state) (o : cluster_obs) : bool :=
 
 Definition up_case_ok (per_locality : bool) (k : up_case) : bool :=
   match k with
-  | (ops, results, robs, cobs) =>
+  | (ops, results, robs, cobs, rdump, cdump) =>
       let (s, rs) := run per_locality init_state ops in
-      andb (bools_eqb rs results) (andb (forallb (router_obs_ok s) robs) (forallb (cluster_obs_ok s) cobs))
+      andb (bools_eqb rs results)
+      (andb (forallb (router_obs_ok s) robs)
+      (andb (forallb (cluster_obs_ok_in (st_clusters s)) cobs)
+      (andb (forallb (router_dump_ok s) rdump)
+            (forallb (cluster_obs_ok_in (st_cfg_clusters s)) cdump))))
   end.
 
 Fixpoint up_mismatches_from (pl : bool) (i : nat) (l : list up_case) : list nat :=
